@@ -132,7 +132,7 @@ impl Prop for C09 {
         "cases = a list of 0-1023 column descriptors (table/column names of 0 to 70000 bytes biased to 249-256 and 65534-65537, non-ASCII UTF-8; every ColumnType variant; flag words from all 16 bits) used as a text resultset header, a binary resultset header, or a PREPARE reply (arbitrary u32 statement id, independent parameter and column lists). Oracle: decoded count and per column table, name, type, flags in order equal the declared ones; PREPARE_OK id / num_params / num_columns equal; mysql_common's Column parser agrees. Non-trivial = > 250 columns, or a name > 250 bytes, or flags with >= 3 bits.".into()
     }
     fn cases(&self, tier: Tier) -> u64 {
-        tier.pick(8_000, 150_000)
+        tier.pick(60000, 600000)
     }
     fn choice_len(&self) -> usize {
         12_000
